@@ -28,6 +28,8 @@ def main():
                 import json
                 mp = os.path.join(d, "meta.json")
                 meta = json.load(open(mp))
+                if not isinstance(meta.get("detected_by"), dict):
+                    meta["detected_by_note"] = meta.pop("detected_by", None)
                 meta.setdefault("detected_by", {})[pid] = {"detected": bool(hit), "tier": os.environ.get("VERIF_TIER", "quick"),
                                                             "line": (hit[0] if hit else r.stdout.splitlines()[-1] if r.stdout else "")[:300]}
                 json.dump(meta, open(mp, "w"), indent=1)
